@@ -533,10 +533,43 @@ Print Assumptions C04_pypi_end_to_end.
 
 (* ====== ties to the source: BEGIN (written by bin/mkties) ====== *)
 (* The Go functions named here are translated into Gallina from /repo's source on every run
-   (tools/gen/code.go -> Gen/Code/<Eco>.v); Tie/<Eco>.v, Tie/<Eco>Range.v prove each translation equal to the
-   model the theorems above speak about.  If the code changes so that a tie no longer holds,
-   this file no longer checks. *)
-From Verif.Tie Require Alpine AlpineRange Cargo CargoRange Debian DebianRange Gem GemRange Semver Golang GolangRange MavenRange Npm Nuget NugetRange Pypi PypiRange Rpm RpmRange.
+   (tools/gen -> Gen/Code/<Eco>.v for loop-free functions, Gen/Loops/<Eco>.v for functions with
+   loops and index expressions, where a panic is Panic and a loop takes fuel); Tie/<Eco>.v,
+   Tie/<Eco>Range.v and Tie/Loops/<Eco>.v prove each translation equal to the model the theorems
+   above speak about (and, for the loop functions: no panic, termination within a linear bound).
+   If the code changes so that a tie no longer holds, this file no longer checks. *)
+Require Verif.Tie.Alpine.
+Require Verif.Tie.AlpineRange.
+Require Verif.Tie.Cargo.
+Require Verif.Tie.CargoRange.
+Require Verif.Tie.Debian.
+Require Verif.Tie.DebianRange.
+Require Verif.Tie.Gem.
+Require Verif.Tie.GemRange.
+Require Verif.Tie.Golang.
+Require Verif.Tie.GolangRange.
+Require Verif.Tie.MavenRange.
+Require Verif.Tie.Npm.
+Require Verif.Tie.Nuget.
+Require Verif.Tie.NugetRange.
+Require Verif.Tie.Pypi.
+Require Verif.Tie.PypiRange.
+Require Verif.Tie.Rpm.
+Require Verif.Tie.RpmRange.
+Require Verif.Tie.Semver.
+Require Verif.Tie.Loops.Alpine.
+Require Verif.Tie.Loops.Cargo.
+Require Verif.Tie.Loops.CargoRange.
+Require Verif.Tie.Loops.Debian.
+Require Verif.Tie.Loops.Gem.
+Require Verif.Tie.Loops.Golang.
+Require Verif.Tie.Loops.Maven.
+Require Verif.Tie.Loops.Npm.
+Require Verif.Tie.Loops.Nuget.
+Require Verif.Tie.Loops.Pypi.
+Require Verif.Tie.Loops.Rpm.
+Require Verif.Tie.Loops.RpmRange.
+Require Verif.Tie.Loops.Semver.
 Definition C04_tie_alpine_compareInt := Verif.Tie.Alpine.tie_alpine_compareInt.
 Print Assumptions C04_tie_alpine_compareInt.
 Definition C04_tie_alpine_compareLetters := Verif.Tie.Alpine.tie_alpine_compareLetters.
@@ -571,10 +604,6 @@ Definition C04_tie_gem_VersionRange_String := Verif.Tie.GemRange.tie_gem_Version
 Print Assumptions C04_tie_gem_VersionRange_String.
 Definition C04_tie_gem_VersionRange_Contains := Verif.Tie.GemRange.tie_gem_VersionRange_Contains.
 Print Assumptions C04_tie_gem_VersionRange_Contains.
-Definition C04_tie_semver_compareInt := Verif.Tie.Semver.tie_semver_compareInt.
-Print Assumptions C04_tie_semver_compareInt.
-Definition C04_tie_semver_compare := Verif.Tie.Semver.tie_semver_compare.
-Print Assumptions C04_tie_semver_compare.
 Definition C04_tie_golang_compareInt := Verif.Tie.Golang.tie_golang_compareInt.
 Print Assumptions C04_tie_golang_compareInt.
 Definition C04_tie_golang_Version_Compare := Verif.Tie.Golang.tie_golang_Version_Compare.
@@ -625,4 +654,122 @@ Definition C04_tie_rpm_satisfiesRPMConstraint_model := Verif.Tie.RpmRange.tie_rp
 Print Assumptions C04_tie_rpm_satisfiesRPMConstraint_model.
 Definition C04_tie_rpm_contains := Verif.Tie.RpmRange.tie_rpm_contains.
 Print Assumptions C04_tie_rpm_contains.
+Definition C04_tie_semver_compareInt := Verif.Tie.Semver.tie_semver_compareInt.
+Print Assumptions C04_tie_semver_compareInt.
+Definition C04_tie_semver_compare := Verif.Tie.Semver.tie_semver_compare.
+Print Assumptions C04_tie_semver_compare.
+Definition C04_tie_loops_alpine_hasLeadingZero := Verif.Tie.Loops.Alpine.tie_loops_alpine_hasLeadingZero.
+Print Assumptions C04_tie_loops_alpine_hasLeadingZero.
+Definition C04_tie_hasLeadingZero_total_model := Verif.Tie.Loops.Alpine.hasLeadingZero_total_model.
+Print Assumptions C04_tie_hasLeadingZero_total_model.
+Definition C04_tie_loops_alpine_compareNumericArraysNumeric := Verif.Tie.Loops.Alpine.tie_loops_alpine_compareNumericArraysNumeric.
+Print Assumptions C04_tie_loops_alpine_compareNumericArraysNumeric.
+Definition C04_tie_compareNumericArraysNumeric_total_model := Verif.Tie.Loops.Alpine.compareNumericArraysNumeric_total_model.
+Print Assumptions C04_tie_compareNumericArraysNumeric_total_model.
+Definition C04_tie_loops_alpine_compareSuffixArrays := Verif.Tie.Loops.Alpine.tie_loops_alpine_compareSuffixArrays.
+Print Assumptions C04_tie_loops_alpine_compareSuffixArrays.
+Definition C04_tie_compareSuffixArrays_total_model := Verif.Tie.Loops.Alpine.compareSuffixArrays_total_model.
+Print Assumptions C04_tie_compareSuffixArrays_total_model.
+Definition C04_tie_loops_cargo_comparePrereleaseIdentifiers := Verif.Tie.Loops.Cargo.tie_loops_cargo_comparePrereleaseIdentifiers.
+Print Assumptions C04_tie_loops_cargo_comparePrereleaseIdentifiers.
+Definition C04_tie_comparePrereleaseIdentifiers_total_model := Verif.Tie.Loops.Cargo.comparePrereleaseIdentifiers_total_model.
+Print Assumptions C04_tie_comparePrereleaseIdentifiers_total_model.
+Definition C04_tie_cargo_compare_closed := Verif.Tie.Loops.Cargo.tie_cargo_compare_closed.
+Print Assumptions C04_tie_cargo_compare_closed.
+Definition C04_tie_loops_cargo_countVersionComponents := Verif.Tie.Loops.CargoRange.tie_loops_cargo_countVersionComponents.
+Print Assumptions C04_tie_loops_cargo_countVersionComponents.
+Definition C04_tie_loops_cargo_countVersionComponents_range := Verif.Tie.Loops.CargoRange.loops_cargo_countVersionComponents_range.
+Print Assumptions C04_tie_loops_cargo_countVersionComponents_range.
+Definition C04_tie_compare_closed := Verif.Tie.Loops.CargoRange.compare_closed.
+Print Assumptions C04_tie_compare_closed.
+Definition C04_tie_cargo_caret_closed := Verif.Tie.Loops.CargoRange.tie_cargo_caret_closed.
+Print Assumptions C04_tie_cargo_caret_closed.
+Definition C04_tie_cargo_tilde_closed := Verif.Tie.Loops.CargoRange.tie_cargo_tilde_closed.
+Print Assumptions C04_tie_cargo_tilde_closed.
+Definition C04_tie_cargo_satisfiesConstraint_closed := Verif.Tie.Loops.CargoRange.tie_cargo_satisfiesConstraint_closed.
+Print Assumptions C04_tie_cargo_satisfiesConstraint_closed.
+Definition C04_tie_cargo_satisfiesConstraint_counted := Verif.Tie.Loops.CargoRange.tie_cargo_satisfiesConstraint_counted.
+Print Assumptions C04_tie_cargo_satisfiesConstraint_counted.
+Definition C04_tie_loops_debian_compareDebianDigits := Verif.Tie.Loops.Debian.tie_loops_debian_compareDebianDigits.
+Print Assumptions C04_tie_loops_debian_compareDebianDigits.
+Definition C04_tie_loops_debian_getDebianCharWeight := Verif.Tie.Loops.Debian.tie_loops_debian_getDebianCharWeight.
+Print Assumptions C04_tie_loops_debian_getDebianCharWeight.
+Definition C04_tie_loops_debian_compareDebianNonDigits := Verif.Tie.Loops.Debian.tie_loops_debian_compareDebianNonDigits.
+Print Assumptions C04_tie_loops_debian_compareDebianNonDigits.
+Definition C04_tie_loops_debian_compareDebianNonDigits_sum := Verif.Tie.Loops.Debian.tie_loops_debian_compareDebianNonDigits_sum.
+Print Assumptions C04_tie_loops_debian_compareDebianNonDigits_sum.
+Definition C04_tie_loops_debian_compareDebianVersionString := Verif.Tie.Loops.Debian.tie_loops_debian_compareDebianVersionString.
+Print Assumptions C04_tie_loops_debian_compareDebianVersionString.
+Definition C04_tie_compareDebianVersionString_total_model := Verif.Tie.Loops.Debian.compareDebianVersionString_total_model.
+Print Assumptions C04_tie_compareDebianVersionString_total_model.
+Definition C04_tie_debian_compare_closed := Verif.Tie.Loops.Debian.tie_debian_compare_closed.
+Print Assumptions C04_tie_debian_compare_closed.
+Definition C04_tie_loops_gem_removeTrailingZeros_exact := Verif.Tie.Loops.Gem.tie_loops_gem_removeTrailingZeros_exact.
+Print Assumptions C04_tie_loops_gem_removeTrailingZeros_exact.
+Definition C04_tie_loops_gem_removeTrailingZeros := Verif.Tie.Loops.Gem.tie_loops_gem_removeTrailingZeros.
+Print Assumptions C04_tie_loops_gem_removeTrailingZeros.
+Definition C04_tie_removeTrailingZeros_total_model := Verif.Tie.Loops.Gem.removeTrailingZeros_total_model.
+Print Assumptions C04_tie_removeTrailingZeros_total_model.
+Definition C04_tie_loops_gem_split_exact := Verif.Tie.Loops.Gem.tie_loops_gem_split_exact.
+Print Assumptions C04_tie_loops_gem_split_exact.
+Definition C04_tie_loops_gem_split := Verif.Tie.Loops.Gem.tie_loops_gem_split.
+Print Assumptions C04_tie_loops_gem_split.
+Definition C04_tie_Version_splitNumericAndPrerelease_total_model := Verif.Tie.Loops.Gem.Version_splitNumericAndPrerelease_total_model.
+Print Assumptions C04_tie_Version_splitNumericAndPrerelease_total_model.
+Definition C04_tie_loops_gem_compareSegmentArrays := Verif.Tie.Loops.Gem.tie_loops_gem_compareSegmentArrays.
+Print Assumptions C04_tie_loops_gem_compareSegmentArrays.
+Definition C04_tie_compareSegmentArrays_total_model := Verif.Tie.Loops.Gem.compareSegmentArrays_total_model.
+Print Assumptions C04_tie_compareSegmentArrays_total_model.
+Definition C04_tie_loops_gem_compare := Verif.Tie.Loops.Gem.tie_loops_gem_compare.
+Print Assumptions C04_tie_loops_gem_compare.
+Definition C04_tie_Version_Compare_total_model := Verif.Tie.Loops.Gem.Version_Compare_total_model.
+Print Assumptions C04_tie_Version_Compare_total_model.
+Definition C04_tie_loops_golang_comparePrerelease := Verif.Tie.Loops.Golang.tie_loops_golang_comparePrerelease.
+Print Assumptions C04_tie_loops_golang_comparePrerelease.
+Definition C04_tie_comparePrerelease_total_model := Verif.Tie.Loops.Golang.comparePrerelease_total_model.
+Print Assumptions C04_tie_comparePrerelease_total_model.
+Definition C04_tie_golang_compare_closed := Verif.Tie.Loops.Golang.tie_golang_compare_closed.
+Print Assumptions C04_tie_golang_compare_closed.
+Definition C04_tie_loops_maven_trimTrailingNulls_gen := Verif.Tie.Loops.Maven.tie_loops_maven_trimTrailingNulls_gen.
+Print Assumptions C04_tie_loops_maven_trimTrailingNulls_gen.
+Definition C04_tie_loops_maven_trimTrailingNulls := Verif.Tie.Loops.Maven.tie_loops_maven_trimTrailingNulls.
+Print Assumptions C04_tie_loops_maven_trimTrailingNulls.
+Definition C04_tie_trimTrailingNulls_total_model := Verif.Tie.Loops.Maven.trimTrailingNulls_total_model.
+Print Assumptions C04_tie_trimTrailingNulls_total_model.
+Definition C04_tie_loops_npm_comparePrerelease := Verif.Tie.Loops.Npm.tie_loops_npm_comparePrerelease.
+Print Assumptions C04_tie_loops_npm_comparePrerelease.
+Definition C04_tie_npm_compare_closed := Verif.Tie.Loops.Npm.tie_npm_compare_closed.
+Print Assumptions C04_tie_npm_compare_closed.
+Definition C04_tie_loops_nuget_comparePrerelease := Verif.Tie.Loops.Nuget.tie_loops_nuget_comparePrerelease.
+Print Assumptions C04_tie_loops_nuget_comparePrerelease.
+Definition C04_tie_nuget_compare_closed := Verif.Tie.Loops.Nuget.tie_nuget_compare_closed.
+Print Assumptions C04_tie_nuget_compare_closed.
+Definition C04_tie_loops_pypi_compareReleaseVersions := Verif.Tie.Loops.Pypi.tie_loops_pypi_compareReleaseVersions.
+Print Assumptions C04_tie_loops_pypi_compareReleaseVersions.
+Definition C04_tie_compareReleaseVersions_total_model := Verif.Tie.Loops.Pypi.compareReleaseVersions_total_model.
+Print Assumptions C04_tie_compareReleaseVersions_total_model.
+Definition C04_tie_pypi_compare_closed := Verif.Tie.Loops.Pypi.tie_pypi_compare_closed.
+Print Assumptions C04_tie_pypi_compare_closed.
+Definition C04_tie_loops_rpm_isSeparator := Verif.Tie.Loops.Rpm.tie_loops_rpm_isSeparator.
+Print Assumptions C04_tie_loops_rpm_isSeparator.
+Definition C04_tie_loops_rpm_isSeparator_rune := Verif.Tie.Loops.Rpm.tie_loops_rpm_isSeparator_rune.
+Print Assumptions C04_tie_loops_rpm_isSeparator_rune.
+Definition C04_tie_loops_rpm_compareRPMDigits := Verif.Tie.Loops.Rpm.tie_loops_rpm_compareRPMDigits.
+Print Assumptions C04_tie_loops_rpm_compareRPMDigits.
+Definition C04_tie_rpm_compareRPMNonDigits := Verif.Tie.Loops.Rpm.tie_rpm_compareRPMNonDigits.
+Print Assumptions C04_tie_rpm_compareRPMNonDigits.
+Definition C04_tie_loops_rpm_compareRPMVersionString := Verif.Tie.Loops.Rpm.tie_loops_rpm_compareRPMVersionString.
+Print Assumptions C04_tie_loops_rpm_compareRPMVersionString.
+Definition C04_tie_compareRPMVersionString_total_model := Verif.Tie.Loops.Rpm.compareRPMVersionString_total_model.
+Print Assumptions C04_tie_compareRPMVersionString_total_model.
+Definition C04_tie_rpm_compare_closed := Verif.Tie.Loops.Rpm.tie_rpm_compare_closed.
+Print Assumptions C04_tie_rpm_compare_closed.
+Definition C04_tie_rpm_satisfiesRPMConstraint_closed := Verif.Tie.Loops.RpmRange.tie_rpm_satisfiesRPMConstraint_closed.
+Print Assumptions C04_tie_rpm_satisfiesRPMConstraint_closed.
+Definition C04_tie_rpm_contains_closed := Verif.Tie.Loops.RpmRange.tie_rpm_contains_closed.
+Print Assumptions C04_tie_rpm_contains_closed.
+Definition C04_tie_loops_semver_comparePrerelease := Verif.Tie.Loops.Semver.tie_loops_semver_comparePrerelease.
+Print Assumptions C04_tie_loops_semver_comparePrerelease.
+Definition C04_tie_semver_compare_closed := Verif.Tie.Loops.Semver.tie_semver_compare_closed.
+Print Assumptions C04_tie_semver_compare_closed.
 (* ====== ties to the source: END ====== *)
